@@ -601,7 +601,8 @@ pub fn run(which: &'static str, tier: &str, seed: u64, out: &str, engine_plain: 
     let mut nontrivial = 0u64;
     let mut max_overrun = 0u64;
     let mut samples = Vec::new();
-    let wall_cap = if thorough { 3000.0 } else { 100.0 };
+    // only a guard against pathological slowness: coverage must not depend on how busy the machine is
+    let wall_cap = if thorough { 6000.0 } else { 900.0 };
     'outer: for (name, fen) in SWEEP_POSITIONS {
         let b = board(fen);
         for d in [2u8, 3, 4, 5] {
